@@ -83,7 +83,7 @@ func runC16(c *Ctx) {
 
 	closePathRule(c)
 
-	L.Rule("R-C16-STATS", "the live key count is what reinit recounts: node.set reports 1 exactly when it raised numKeys, and Tree.set adds exactly that to stats.NumLeafKeys", 2)
+	L.Rule("R-C16-STATS", "the live key count is what reinit recounts: node.set reports 1 exactly when it raised numKeys, Tree.set adds exactly that to stats.NumLeafKeys, DeleteBelow recounts every leaf", 3)
 	c.Group("R-C16-STATS", "node.set#numAdded", func() {
 		fn := P.Fn("z", "node", "set")
 		L.Analysed(fname(fn))
@@ -119,6 +119,54 @@ func runC16(c *Ctx) {
 		if good {
 			L.Check(n > 0, "R-C16-STATS", "node.set#numAdded", fmt.Sprintf("returns 1 exactly on the %d path(s) that raise numKeys by one", n), "no returning path", fn.Pos())
 		}
+	})
+	c.Group("R-C16-STATS", "Tree.compact#recount", func() {
+		// DeleteBelow rebuilds the key count from zero: it stores 0, and every leaf visited by compact adds
+		// its numKeys() AFTER compacting it, on every path of the leaf branch (a leaf that is skipped "because
+		// nothing is to be done" is missing from the count until the next reopen recounts it)
+		del := P.Fn("z", "Tree", "DeleteBelow")
+		fn := P.Fn("z", "Tree", "compact")
+		L.Analysed(fname(fn), fname(del))
+		tb := newTB(fn)
+		var problems []string
+		zeroed := false
+		dtb := newTB(del)
+		for _, st := range fieldStoresIn(del, "TreeStats", "NumLeafKeys") {
+			if isConst(st.Val, "0") {
+				if cs := callsTo(del, "z.Tree.compact"); len(cs) == 1 && instrDominates(st, cs[0]) && dtb.T(cs[0].Common().Args[1]).String() == "call[z.Tree.node](p[0],c[1])" {
+					zeroed = true
+				}
+			}
+		}
+		if !zeroed {
+			problems = append(problems, "DeleteBelow does not zero stats.NumLeafKeys before compacting from the root")
+		}
+		var addSt ssa.Instruction
+		for _, st := range fieldStoresIn(fn, "TreeStats", "NumLeafKeys") {
+			if tb.T(st.Val).String() == "add(call[z.node.numKeys](p[1]),fld[NumLeafKeys](fld[stats](p[0])))" {
+				addSt = st
+			}
+		}
+		nc := callsTo(fn, "z.node.compact")
+		var leafCompact ssa.Instruction
+		for _, ci := range nc {
+			if tb.T(ci.Common().Args[0]).String() == "p[1]" && tb.T(ci.Common().Args[1]).String() == "p[2]" {
+				leafCompact = ci
+			}
+		}
+		leaf := edgesWhere(fn, tb, "call[z.node.isLeaf](p[1])", nil, false)
+		switch {
+		case addSt == nil || leafCompact == nil:
+			problems = append(problems, "the leaf branch does not compact the leaf with ts and add its numKeys() to stats.NumLeafKeys")
+		default:
+			if !instrDominates(leafCompact, addSt) {
+				problems = append(problems, "the leaf's keys are counted before it is compacted")
+			}
+			if bad, path := reach(entryPos(fn), isReturn, isInstr(addSt), cutSet(leaf)); bad != nil {
+				problems = append(problems, "a leaf can be left without being added to the count (block path "+pathString(path)+")")
+			}
+		}
+		L.Check(len(problems) == 0, "R-C16-STATS", "Tree.compact#recount", "DeleteBelow zeroes the count; every leaf is compacted and then adds numKeys(), on every path of the leaf branch", strings.Join(problems, "; "), fn.Pos())
 	})
 	c.Group("R-C16-STATS", "Tree.set#NumLeafKeys", func() {
 		fn := P.Fn("z", "Tree", "set")
